@@ -783,7 +783,8 @@ func (st *state) applyDefaults(instancep reflect.Value, schema *Schema) (err err
 }
 
 // schemaHasDefaultsInProperties reports whether s or any descendant schema under
-// its Properties contains a default. Only walks Properties to match ApplyDefaults semantics.
+// its Properties contains a default that applyDefaults would apply.
+// Only walks Properties, and skips required ones, to match ApplyDefaults semantics.
 func schemaHasDefaultsInProperties(s *Schema) bool {
 	if s == nil {
 		return false
@@ -792,7 +793,12 @@ func schemaHasDefaultsInProperties(s *Schema) bool {
 		return true
 	}
 	if s.Properties != nil {
-		for _, ss := range s.Properties {
+		for name, ss := range s.Properties {
+			// Defaults on required properties are ignored by applyDefaults,
+			// so they are no reason to create a missing parent.
+			if slices.Contains(s.Required, name) {
+				continue
+			}
 			if schemaHasDefaultsInProperties(ss) {
 				return true
 			}
